@@ -59,7 +59,7 @@ func TestC19(t *testing.T) {
 		}
 		runCase(t, r, i)
 	}
-	r.Require("drops_observed", "kept_declared", "kept_fresh", "kept_pinned", "kept_no_expiry_age", "restarts", "polls", "reads", "payloads_checked", "kept_exactly_at_age", "handle_grabbed_during_poll_of_stale_secret", "racing_lookups", "polls_with_not_found", "reads_through_struct_fields", "lookups_during_a_poll_cache_write")
+	r.Require("incarnations_without_lookup", "drops_observed", "kept_declared", "kept_fresh", "kept_pinned", "kept_no_expiry_age", "restarts", "polls", "reads", "payloads_checked", "kept_exactly_at_age", "handle_grabbed_during_poll_of_stale_secret", "racing_lookups", "polls_with_not_found", "reads_through_struct_fields", "lookups_during_a_poll_cache_write")
 	r.Rule("seeded histories over 2 declarable + 4 undeclared names: a first process started from a crafted cache (last-access stamps incl. 0, stale, fresh, far future), then events {restart from the last payload with a new declared set and expiry age in {0,-1s,1s,1h,30d}; clock jump in {0, age-1s, age, age+1s, 10*age}; read through a handle; obtain a handle without reading; new watcher; lookup; service change; poll}. Distinct = (event kind, expiry-age class, what the poll dropped/kept and why)")
 }
 
@@ -113,7 +113,13 @@ func runCase(t *testing.T, r *evid.Run, idx int) {
 		cache := &fakesvc.MonCache{Initial: doc}
 		// the poller either gets an injected ticker that never fires, or the built-in one with an interval
 		// far longer than this test (polls are explicit Refresh calls either way)
-		cfg := setec.StoreConfig{Client: svc, Secrets: append([]string(nil), decl...), AllowLookup: true,
+		// (a process that does not look anything up - a later release of the program, say - inherits the cache of
+		// one that did: what it inherits stays until the rule allows a poll to drop it)
+		allowLookup := rng.IntN(4) != 0
+		if !allowLookup {
+			r.Count("incarnations_without_lookup", 1)
+		}
+		cfg := setec.StoreConfig{Client: svc, Secrets: append([]string(nil), decl...), AllowLookup: allowLookup,
 			Cache: cache, ExpiryAge: age, TimeNow: clock, Logf: func(string, ...any) {}}
 		tickerKind := []string{"injected", "built-in default interval", "built-in 24h", "built-in 1h"}[rng.IntN(4)]
 		switch tickerKind {
@@ -125,7 +131,7 @@ func runCase(t *testing.T, r *evid.Run, idx int) {
 			cfg.PollInterval = time.Hour
 		}
 		r.Distinct("ticker " + tickerKind)
-		trace = append(trace, fmt.Sprintf("START incarnation %d: declared=%v age=%v now=%d ticker=%s cache=%s", inc, decl, age, now, tickerKind, doc))
+		trace = append(trace, fmt.Sprintf("START incarnation %d: declared=%v age=%v lookups=%t now=%d ticker=%s cache=%s", inc, decl, age, allowLookup, now, tickerKind, doc))
 		for _, n := range names { // whatever the service had forgotten is back before the next process starts
 			if _, ok := svc.Active(n); !ok {
 				ver[n]++
@@ -295,7 +301,7 @@ func runCase(t *testing.T, r *evid.Run, idx int) {
 						cand = append(cand, n)
 					}
 				}
-				if len(cand) == 0 {
+				if len(cand) == 0 || !allowLookup {
 					continue
 				}
 				n := cand[rng.IntN(len(cand))]
@@ -420,7 +426,7 @@ func runCase(t *testing.T, r *evid.Run, idx int) {
 						st.Close()
 						return
 					}
-				} else if cn := unknownName(m, gone); cn != "" && len(gone) == 0 && idx%12 == 0 && !slowWriteDone {
+				} else if cn := unknownName(m, gone); cn != "" && allowLookup && len(gone) == 0 && idx%12 == 0 && !slowWriteDone {
 					slowWriteDone = true // (one per history: each costs real milliseconds)
 					// The poll has something to write (a present secret has a new version), its cache write is
 					// slow, and meanwhile another goroutine looks a new name up. Whatever order the two writes
